@@ -33,6 +33,9 @@ DOM = {
 	"str": ["a", "b", "", "ab", "é"],
 	"bool": [True, False],
 	"date": [V.D0, V.date(2021, 2, 28), V.date(1999, 12, 31)],
+	"nanfloat": [float("nan"), 0.0, -0.0, 1.5, float("inf"), -2.5],
+	"object": [1, "a", 2.5, (1, 2), b"x", V.Plain(3)],
+	"nested": [[1, 2], [1], (3, [4]), {"k": 1}, [1, 2]],
 }
 
 
